@@ -219,6 +219,9 @@ class Run:
             f.seek(min(offset, len(blobs[idx])))
             self.open_streams.append(f)
             return f, f
+        if kind == "relpath":
+            # a path RELATIVE to the current directory (the step changes into the directory of the file for the call)
+            return os.path.basename(paths[idx]), None
         if kind == "rwfile":
             # a read/write handle whose content still sits in its user-space buffer (written, not flushed): what the
             # stream DELIVERS is the content; the raw descriptor / the file's stat say something else
@@ -302,8 +305,14 @@ class Run:
                         kwargs["expected_object_size"] = sz
                         size_ok = (sz == n)
             pos = stream.tell() if stream is not None else None
-            r.out = call(s.store_object, pid, arg, **kwargs) if pid is not None \
-                else call(s.store_object, None, arg)
+            cwd = os.getcwd()
+            if op.get("kind") == "relpath":
+                os.chdir(self.src)
+            try:
+                r.out = call(s.store_object, pid, arg, **kwargs) if pid is not None \
+                    else call(s.store_object, None, arg)
+            finally:
+                os.chdir(cwd)
             if stream is not None:
                 r.extra["stream"] = {"closed": stream.closed,
                                      "tell": None if stream.closed else stream.tell(), "pos": pos}
@@ -362,8 +371,14 @@ class Run:
         elif k == "smeta":
             arg, stream = self.data_arg(op["d"], op.get("kind", "str"), op.get("offset", 0), docs=True)
             fmt = op.get("fmt")
-            r.out = call(s.store_metadata, op["pid"], arg, fmt) if fmt is not None \
-                else call(s.store_metadata, op["pid"], arg)
+            cwd = os.getcwd()
+            if op.get("kind") == "relpath":
+                os.chdir(self.src)
+            try:
+                r.out = call(s.store_metadata, op["pid"], arg, fmt) if fmt is not None \
+                    else call(s.store_metadata, op["pid"], arg)
+            finally:
+                os.chdir(cwd)
             r.exp = m.smeta(op["pid"], fmt, self.docs[op["d"]])
         elif k == "rmeta":
             r.out = common.retrieve_meta_bytes(s, op["pid"], op.get("fmt"))
